@@ -594,6 +594,9 @@ def run(ctx):
     ble_configs = [
         (dict(leg="ble"), 5 if quick else 7),
         (dict(leg="ble", raiser="A", alphabet=["sub:9+10+13+14", "timer", "change:9", "burst", "storm:10", "drop", "use"]), 5 if quick else 7),
+        # accessories that answer no protocol-configuration request / have no service-signature characteristic
+        (dict(leg="ble", acc="proto-reject", alphabet=["sub:9+10+13+14", "timer", "change:9", "burst", "drop", "use"]), 5 if quick else 7),
+        (dict(leg="ble", acc="no-sig", alphabet=["sub:9+10+13+14", "timer", "change:9", "burst", "drop", "use"]), 5 if quick else 7),
         # from a non-initial state: subscribed, notifications running, then the link was lost and re-made by the next use
         (dict(leg="ble", prelude=["sub:9+10+13+14", "timer", "drop", "use"], max_drops=2, alphabet=["timer", "change:13", "burst", "storm:10", "drop", "use", "fail-start:13", "sub:9"]), 4 if quick else 6),
     ]
